@@ -357,6 +357,11 @@ fn main() {
                 );
             }
             if ctx.violations.is_empty() {
+                // a part that judged nothing means the machinery did not run (missing sysroot, rustc, …): never "held"
+                if let Some(p) = ctx.parts.iter().find(|p| p.evaluations == 0) {
+                    eprintln!("MACHINERY-ERROR: part {} judged no case at all (discards: {:?}); run ./setup.sh?", p.name, p.discards);
+                    std::process::exit(2);
+                }
                 println!("OK property={id} tier={} seed={seed}", tier.name());
                 std::process::exit(0);
             }
